@@ -898,6 +898,18 @@ where
                 }
                 Expr::Object(ObjectLit { props, .. }) => {
                     let mut props = props.clone();
+                    // `v-slots` entries are kept beside the written slots
+                    if let Some(slots) = slots {
+                        match *slots {
+                            Expr::Object(ObjectLit {
+                                props: slot_props, ..
+                            }) => props.extend(slot_props),
+                            expr => props.push(PropOrSpread::Spread(SpreadElement {
+                                dot3_token: DUMMY_SP,
+                                expr: Box::new(expr),
+                            })),
+                        }
+                    }
                     if self.options.optimize {
                         props.push(PropOrSpread::Prop(Box::new(Prop::KeyValue(KeyValueProp {
                             key: PropName::Ident(quote_ident!("_")),
